@@ -5,16 +5,19 @@ package ice
 // position of the default session (deviation-bounded).
 
 import (
-	"net/netip"
 	"bytes"
 	"context"
+	"encoding/binary"
 	"encoding/json"
 	"errors"
 	"fmt"
+	"net"
+	"net/netip"
 	"os"
 	"strconv"
 	"strings"
 	"testing/synctest"
+	"time"
 
 	"github.com/pion/stun/v3"
 )
@@ -394,4 +397,288 @@ func checkC07(c *runCtx) {
 	for _, s := range specs {
 		vtSearch(c, p, vtSpec{Name: s.name, Model: "data", Cfg: s.cfg, Deadline: dl})
 	}
+	// the same statement over a TCP candidate: framed data in both directions, every segmentation of a frame
+	if os.Getenv("VERIF_ONLY") == "" || strings.Contains("tcp", os.Getenv("VERIF_ONLY")) {
+		depth := 7
+		if !c.quick() {
+			depth = 8
+		}
+		vtSearch(c, p, vtSpec{Name: fmt.Sprintf("passive ICE-TCP candidate (TCPMux), framed data both ways, all sequences of length <= %d", depth), Model: "tcpdata",
+			Cfg: gatherCfg{Ifaces: gIfacesBasic, NetTypes: []string{"tcp4"}, CandTypes: []string{"host"}, TCPMux: "10.0.0.1:7001", Depth: depth}, Deadline: dl})
+	}
 }
+
+// ---------------------------------------------------------------- application data over a passive ICE-TCP candidate
+
+// tcpDataModel: one agent (controlled) with a TCPMux host candidate; the scripted peer connects, is validated and
+// nominated over the stream, and then data flows both ways in RFC 4571 frames while the byte stream is segmented
+// in different ways. Oracle: the reader gets exactly the data frames the peer sent (same bytes, same order), what
+// the agent writes arrives as one frame per Write with the same bytes, nothing that parses as STUN reaches the reader.
+type tcpDataModel struct {
+	*gatherWorld
+	depth    int
+	conn     *Conn
+	client   *pipeEnd
+	server   *pipeEnd
+	inbuf    []byte // bytes the agent wrote to the stream, not yet parsed
+	read     [][]byte
+	expect   [][]byte
+	sent     [][]byte // payloads accepted by Conn.Write, in order
+	gotData  [][]byte // non-STUN frames the peer received
+	seq      int
+	answered int
+	reqs     [][]byte // Binding requests of the agent that the peer has not answered yet
+}
+
+func init() {
+	vtModels["tcpdata"] = func(raw json.RawMessage) vtModel { return newTCPDataModel(raw) }
+}
+
+func newTCPDataModel(raw json.RawMessage) *tcpDataModel {
+	m := &tcpDataModel{gatherWorld: newGatherWorld(raw)}
+	var err error
+	if m.conn, err = m.a.StartAccept(vUfragB, vPwdB); err != nil {
+		panic(err)
+	}
+	go func() {
+		buf := make([]byte, 16384)
+		for {
+			n, err := m.conn.Read(buf)
+			if err != nil {
+				return
+			}
+			m.read = append(m.read, append([]byte{}, buf[:n]...))
+		}
+	}()
+	synctest.Wait()
+
+	return m
+}
+
+func (m *tcpDataModel) Enabled() []string {
+	if m.cfg.Depth > 0 && m.depth >= m.cfg.Depth {
+		return nil
+	}
+	if st, _ := m.a.GetGatheringState(); st == GatheringStateNew {
+		return []string{"gather"}
+	}
+	if m.client == nil {
+		if len(m.localCands()) == 0 {
+			return []string{"wait"}
+		}
+
+		return []string{"connect:uc", "connect:plain"}
+	}
+	evs := []string{"answer", "tick", "request:uc"}
+	for _, k := range []string{"20", "1200"} {
+		for _, sp := range []string{"whole", "hdr", "body3", "glued"} {
+			evs = append(evs, "data:"+k+":"+sp)
+		}
+		evs = append(evs, "write:"+k)
+	}
+	evs = append(evs, "write:stun")
+
+	return evs
+}
+
+func (m *tcpDataModel) request(uc bool) []byte {
+	lu, lp, _ := m.a.GetLocalUserCredentials()
+	setters := []stun.Setter{stun.BindingRequest, stun.TransactionID, stun.NewUsername(lu + ":" + vUfragB)}
+	if uc {
+		setters = append(setters, UseCandidate())
+	}
+	setters = append(setters, AttrControlling(7), PriorityAttr(1845501695), stun.NewShortTermIntegrity(lp), stun.Fingerprint)
+	msg, err := stun.Build(setters...)
+	if err != nil {
+		panic(err)
+	}
+
+	return c15frame(msg.Raw)
+}
+
+// drainClient reads what the agent wrote to the stream and splits it into frames.
+func (m *tcpDataModel) drainClient() {
+	m.client.mu.Lock()
+	m.inbuf = append(m.inbuf, m.client.buf...)
+	m.client.buf = nil
+	m.client.mu.Unlock()
+	for len(m.inbuf) >= 2 {
+		l := int(binary.BigEndian.Uint16(m.inbuf))
+		if len(m.inbuf) < 2+l {
+			break
+		}
+		fr := append([]byte{}, m.inbuf[2:2+l]...)
+		m.inbuf = m.inbuf[2+l:]
+		if stun.IsMessage(fr) {
+			if msg := (&stun.Message{Raw: fr}); msg.Decode() == nil && msg.Type.Class == stun.ClassRequest {
+				m.reqs = append(m.reqs, fr)
+			}
+		} else {
+			m.gotData = append(m.gotData, fr)
+		}
+	}
+}
+
+func (m *tcpDataModel) payload(kind string) []byte {
+	m.seq++
+	n := 20
+	if kind == "1200" {
+		n = 1200
+	}
+	b := make([]byte, n)
+	for i := range b {
+		b[i] = byte(0x80 | (m.seq*31+i*7)&0x7f) // first byte >= 0x80: never STUN
+	}
+
+	return b
+}
+
+func (m *tcpDataModel) Apply(ev string) {
+	m.depth++
+	f := strings.Split(ev, ":")
+	write := func(chunks ...[]byte) {
+		for _, ch := range chunks {
+			_, _ = m.client.Write(ch)
+			synctest.Wait() // the agent's reader consumes the chunk: a short read
+		}
+	}
+	switch f[0] {
+	case "gather":
+		if err := m.a.GatherCandidates(); err != nil {
+			m.problem("", "GatherCandidates: %v", err)
+		}
+	case "wait":
+		time.Sleep(time.Second)
+	case "connect":
+		c, s := newPipe(&net.TCPAddr{IP: net.ParseIP("192.0.2.9").To4(), Port: 40001}, m.lis.addr)
+		m.client, m.server = c, s
+		m.lis.ch <- s
+		write(m.request(f[1] == "uc"))
+	case "request":
+		write(m.request(true))
+	case "answer":
+		m.drainClient()
+		reqs := m.reqs
+		m.reqs = nil
+		for _, raw := range reqs {
+			req := &stun.Message{Raw: raw}
+			if req.Decode() != nil {
+				continue
+			}
+			resp, err := stun.Build(req, stun.BindingSuccess, &stun.XORMappedAddress{IP: net.ParseIP("10.0.0.1"), Port: 7001},
+				stun.NewShortTermIntegrity(vPwdB), stun.Fingerprint)
+			if err != nil {
+				panic(err)
+			}
+			m.answered++
+			write(c15frame(resp.Raw))
+		}
+	case "tick":
+		if m.contact != nil {
+			m.contact()
+		}
+	case "data":
+		p := m.payload(f[1])
+		fr := c15frame(p)
+		m.expect = append(m.expect, p)
+		switch f[2] {
+		case "whole":
+			write(fr)
+		case "hdr":
+			write(fr[:1], fr[1:])
+		case "body3":
+			a, b := 2+len(p)/3, 2+2*len(p)/3
+			write(fr[:a], fr[a:b], fr[b:])
+		case "glued": // two frames in one segment
+			p2 := m.payload("20")
+			m.expect = append(m.expect, p2)
+			write(append(append([]byte{}, fr...), c15frame(p2)...))
+		}
+	case "write":
+		var p []byte
+		if f[1] == "stun" {
+			msg, _ := stun.Build(stun.BindingRequest, stun.TransactionID, stun.Fingerprint)
+			p = msg.Raw
+		} else {
+			p = m.payload(f[1])
+		}
+		n, err := m.conn.Write(p)
+		switch {
+		case f[1] == "stun":
+			if err == nil {
+				m.problem("", "Conn.Write accepted a payload that parses as STUN")
+			}
+		case err == nil && n == len(p):
+			m.sent = append(m.sent, p)
+		case err == nil:
+			m.problem("", "Conn.Write returned %d for a payload of %d bytes", n, len(p))
+		}
+	default:
+		panic("unknown event " + ev)
+	}
+	synctest.Wait()
+	if m.client != nil {
+		m.drainClient()
+	}
+	// oracles
+	if len(m.read) > len(m.expect) {
+		m.problem("", "the reader received %d datagrams, the peer sent %d", len(m.read), len(m.expect))
+	}
+	if len(m.read) < len(m.expect) {
+		m.problem("", "the peer sent %d data frames from a known remote address, the reader received %d", len(m.expect), len(m.read))
+	}
+	for i := 0; i < len(m.read) && i < len(m.expect); i++ {
+		if !bytes.Equal(m.read[i], m.expect[i]) {
+			m.problem("", "datagram %d reached the reader modified or out of order (%d bytes, sent %d bytes)", i, len(m.read[i]), len(m.expect[i]))
+
+			break
+		}
+	}
+	for _, r := range m.read {
+		if stun.IsMessage(r) {
+			m.problem("", "the reader yielded a datagram that parses as STUN")
+		}
+	}
+	if len(m.gotData) != len(m.sent) {
+		m.problem("", "Conn.Write accepted %d payloads, the peer received %d data frames", len(m.sent), len(m.gotData))
+	}
+	for i := 0; i < len(m.gotData) && i < len(m.sent); i++ {
+		if !bytes.Equal(m.gotData[i], m.sent[i]) {
+			m.problem("", "payload %d arrived modified at the peer", i)
+
+			break
+		}
+	}
+	var rb, sb uint64
+	for _, r := range m.read {
+		rb += uint64(len(r))
+	}
+	for _, p := range m.sent {
+		sb += uint64(len(p))
+	}
+	if m.conn.BytesReceived() != rb || m.conn.BytesSent() != sb {
+		m.problem("", "Conn counters received=%d sent=%d, tallies %d / %d", m.conn.BytesReceived(), m.conn.BytesSent(), rb, sb)
+	}
+}
+
+func (m *tcpDataModel) Key() (string, []int) {
+	st, _ := m.a.GetGatheringState()
+	sel := m.a.getSelectedPair() != nil
+	pairs := ""
+	_ = m.a.loop.Run(m.a.loop, func(context.Context) {
+		for _, p := range m.a.checklist {
+			pairs += fmt.Sprintf("[%s %v]", p.state, p.nominated)
+		}
+	})
+
+	return fmt.Sprintf("gs=%s client=%v sel=%v pairs=%s read=%d sent=%d inbuf=%d reqs=%d cs=%s", st, m.client != nil, sel, pairs, len(m.read), len(m.sent), len(m.inbuf), len(m.reqs), m.a.connectionState), []int{m.depth}
+}
+
+func (m *tcpDataModel) Problems() []vtProblem {
+	p := m.problems
+	m.problems = nil
+
+	return p
+}
+
+func (m *tcpDataModel) Finish() []vtProblem { return nil }
